@@ -118,7 +118,7 @@ func c07RecipeFormatted(kind int, seed int64, rec *visitRec) (f *jen.File, small
 				for j := 0; j < nk; j++ {
 					key := fmt.Sprintf("k%d", r.Intn(20))
 					if r.Intn(3) == 0 {
-						key = []string{"json", "JSON", "Json", "xml", "XML", "Xml", "a", "A", "ab", "aB", "Ab", "AB"}[r.Intn(12)]
+						key = []string{"json", "JSON", "Json", "xml", "XML", "Xml", "a", "A", "ab", "aB", "Ab", "AB", " json", "json ", "\tjson", " a", "a ", "a\n"}[r.Intn(18)]
 					}
 					m[key] = []string{"a", "b`", "c\"", ""}[r.Intn(4)]
 				}
@@ -179,6 +179,17 @@ func c07RecipeFormatted(kind int, seed int64, rec *visitRec) (f *jen.File, small
 				d[jen.Id("k").Call()] = jen.Lit(v) // distinct Code values, same key text
 			}
 			return jen.Id("M").Values(d)
+		}
+		if r.Intn(2) == 0 {
+			// pairs with identical keys whose values differ only in the package they come from, the two packages
+			// having the same name (their order must not follow map iteration either) — with and without earlier
+			// references that fix the names of the two packages
+			pr := [][2]string{{"math/rand", "crypto/rand"}, {"text/template", "html/template"}, {"a.b/x", "c.d/x"}, {"crypto/rand", "a.b/rand"}}[r.Intn(4)]
+			if r.Intn(3) > 0 {
+				f.Var().Id("e1").Op("=").Qual(pr[0], "E")
+				f.Var().Id("e2").Op("=").Qual(pr[1], "E")
+			}
+			f.Var().Id("tw").Op("=").Id("M").Values(jen.Dict{jen.Id("k").Call(): jen.Qual(pr[0], "V"), jen.Id("k").Call(): jen.Qual(pr[1], "V"), jen.Id("k").Call(): jen.Qual(pr[1], "V").Call()})
 		}
 		outer := jen.Dict{}
 		n := 2 + r.Intn(3)
